@@ -254,3 +254,16 @@ Proof.
   - rewrite <- uncovered_first_is_leaf.
     destruct (exec ra_addr_checked JustReturnIfFirstFrameOtherwiseFp true rg m). reflexivity.
 Qed.
+
+(* PE convention: an address without a function-table entry is a frameless leaf - in every frame *)
+Theorem no_pdata_entry_is_leaf_x86 u a x rg m md rel pe :
+  lookup_address a = Ok x -> find_module mdata (mods _ u) x = Ok (Some (md, rel)) ->
+  mdat md = MPe pe -> pe_lookup (pe_funcs pe) rel None = None ->
+  let o := unwind_frame_x u (cache_new rule) a rg m in
+  (o_res _ _ o, o_regs _ _ o) = exec_x JustReturn (negb (is_ra a)) rg m.
+Proof.
+  intros Hx Hf Hd Hl. unfold unwind_frame_x, unwind_frame. rewrite Hx.
+  destruct (fresh_lookup_miss x (gen _ u)) as [c1 Hc]. rewrite Hc, Hf.
+  unfold cb_x86. rewrite Hd. unfold pe_step, pe_step_raw. rewrite Hl. cbn [fst snd pe_restore].
+  destruct (exec_x JustReturn (negb (is_ra a)) rg m). reflexivity.
+Qed.
